@@ -3,5 +3,5 @@ CONSTANTS
   Versions <- VersionsAll
   MaxFaults = 1
   SourceVersions <- SourceVersionsQuick
-INVARIANTS TypeOK PCovers PExact PSources POneBad POthers PRequired PStrict Emit
+INVARIANTS TypeOK PCovers PExact PFail PSources POneBad POthers PRequired PStrict Emit
 CHECK_DEADLOCK FALSE
